@@ -467,3 +467,52 @@ Example pipe_expected_example :
     {| pc_id := 0; pc_spans := Some [big; big; big; torn]; pc_tags := []; pc_end := PendNil; pc_outcome := O5xx; pc_batches := [] |}
   = (C5xx, [(0%Z, repeat 3%N 9); (1%Z, repeat 6%N 7)]).
 Proof. vm_compute. reflexivity. Qed.
+
+(* ---- onEntries at column level: logs and metrics ---------------------------------------------- *)
+
+(* onEntries regenerated (appends to the samples request with the slice each comes from, appends to the time-series
+   request per announced (day, type), flush + reset), the slice fields of TimeSamplesData / TimeSeriesData, the columns
+   the two insert services read: every field is appended exactly once; every call site of onEntries passes four
+   one-element literals or is one of the four decoders whose slices are built together (allow-list, by reading). *)
+Theorem on_entries_appends_every_column_once :
+  entries_ok gen_on_entries_cols gen_spl_fields gen_tsd_fields gen_spl_consumed gen_tsd_consumed = true /\
+  entries_calls_ok gen_on_entries_calls = true.
+Proof. vm_compute. split; reflexivity. Qed.
+Print Assumptions on_entries_appends_every_column_once.
+
+(* Every samples / time-series request that reaches the insert services is rectangular, for every stream of onEntries
+   calls (label pairs too short, sample types out of range, any sizes and flushes, decoder panics and errors) in which
+   the decoder hands over four slices of ONE length ... *)
+Theorem log_batches_are_rectangular : forall evs, events_consistent evs = true ->
+  Forall (fun b => lbatch_rect b = true)
+         (sent_lbatches gen_on_entries_cols gen_spl_fields gen_tsd_fields (lbatch0 gen_spl_fields gen_tsd_fields) evs).
+Proof.
+  intros evs H. apply (sent_lbatches_rect gen_on_entries_cols gen_spl_fields gen_tsd_fields gen_spl_consumed gen_tsd_consumed).
+  - vm_compute. reflexivity.
+  - apply lbatch0_inv.
+  - exact H.
+Qed.
+Print Assumptions log_batches_are_rectangular.
+
+(* ... and that hypothesis is needed: onEntries itself does not compare the lengths; one message more than
+   timestamps passes its index checks and the torn samples request is sent (replayed on the real onEntries by harness
+   pipefuzz, class logs/.../unequal).  No request reaches this: the decoders keep the contract (allow-list above). *)
+Theorem log_batches_rectangular_without_contract_refuted : exists evs,
+  ~ Forall (fun b => lbatch_rect b = true)
+           (sent_lbatches gen_on_entries_cols gen_spl_fields gen_tsd_fields (lbatch0 gen_spl_fields gen_tsd_fields) evs).
+Proof.
+  exists [LcEntries unequal_event]. intros H. rewrite Forall_forall in H.
+  assert (E : forallb lbatch_rect (sent_lbatches gen_on_entries_cols gen_spl_fields gen_tsd_fields
+                (lbatch0 gen_spl_fields gen_tsd_fields) [LcEntries unequal_event]) = false) by (vm_compute; reflexivity).
+  assert (T : forallb lbatch_rect (sent_lbatches gen_on_entries_cols gen_spl_fields gen_tsd_fields
+                (lbatch0 gen_spl_fields gen_tsd_fields) [LcEntries unequal_event]) = true) by (apply forallb_forall; exact H).
+  rewrite E in T. discriminate.
+Qed.
+Print Assumptions log_batches_rectangular_without_contract_refuted.
+
+Example log_contract_hyp_met :
+  events_consistent [LcEntries {| en_lbl_short := false; en_ts := 3; en_msg := 3; en_val := 3; en_types := 3; en_bad_type := false;
+                                   en_series := 2; en_bytes := 2000000 |}; LcEntries unequal_event] = false /\
+  events_consistent [LcEntries {| en_lbl_short := false; en_ts := 3; en_msg := 3; en_val := 3; en_types := 3; en_bad_type := true;
+                                   en_series := 2; en_bytes := 2000000 |}; LcPanic] = true.
+Proof. split; reflexivity. Qed.
